@@ -467,7 +467,10 @@ def walk(rep, ops, chk, results, fbuf, cname):
             if dead:
                 if f[0] != str(BADINST):
                     rep.viol("retcode", "retcode:getvalue_dead", "%s returned %s" % (cname, f[0]))
-            if f[5] != "#" * 8:
+            if len(f) < 6:
+                # the call did not deliver its usual fields (it raised: the executor reports the exception text instead)
+                rep.viol("exception", "exception:getvalue", "%s delivered %r" % (cname, [x[:80] for x in f]))
+            elif f[5] != "#" * 8:
                 rep.viol("buffer_overrun", "buffer_overrun:getvalue", "%s guard bytes after a %d-byte buffer were overwritten: %r" % (cname, blen, f[5]))
         elif kind == "getters":
             s, b, exp, tag = c[1], c[2], c[3], c[4]
